@@ -469,7 +469,7 @@ def pipeline(ctx, prop):
     with Phase(ctx, 'build_tasks'):
         tasks, fam, pairs = build_tasks(ctx)
     with Phase(ctx, 'pipeline_run'):
-        ctx._span_unit = spanunit.UnitRun(unit_tasks(ctx, tasks), nproc=16, timeout=10.0)   # runs meanwhile
+        ctx._span_unit = spanunit.UnitRun(unit_tasks(ctx, tasks, fam), nproc=16, timeout=10.0)   # runs meanwhile
         res = spanpipe.run(tasks, nproc=16, timeout=10.0)
         ctx.extra['pipeline_scheduling'] = dict(spanpipe.LAST_STATS)
     stats = {'timeout': 0, 'error': 0, 'none_results': 0, 'entities': 0}
@@ -624,12 +624,18 @@ def fi(prop, t, f, bad, spans):
 
 # ------------------------------------------------------------------ unit level
 
-def unit_tasks(ctx, tasks):
-    """A deterministic subset of the pipeline tasks for the instrumented run."""
+def unit_tasks(ctx, tasks, fam=None):
+    """A deterministic subset of the pipeline tasks for the instrumented run; the slices of the systematic
+    families that exercise two modifiers in one entity (parser push / pop) and the Chinese add_to / move_overlap are
+    always part of it."""
     by_rec = {}
     for t in tasks:
         by_rec.setdefault(t[0], []).append(t)
     out = []
+    if fam is not None:
+        for t, f in zip(tasks, fam):
+            if (f.startswith('mod-') and '2010' in t[3]) or (f == 'multi-pair' and t[2] == 'zh-cn' and '和你' in t[3]):
+                out.append(t)
     for rec, ts in sorted(by_rec.items()):
         lim = UNIT_LIMITS.get(rec, (0, 0))[1 if ctx.thorough else 0]
         if lim <= 0:
@@ -638,7 +644,12 @@ def unit_tasks(ctx, tasks):
         if len(ts) > lim:
             ts = r.sample(ts, lim)
         out.extend(ts)
-    return out
+    seen, uniq = set(), []
+    for t in out:
+        if t not in seen:
+            seen.add(t)
+            uniq.append(t)
+    return uniq
 
 
 def unit_level(ctx, prop, tasks):
@@ -680,6 +691,11 @@ def unit_level(ctx, prop, tasks):
                        '%s (%s) on %r: implementation %s, model %s' % (k, o.get('ext'), o.get('src'), o.get('impl', o.get('impl_spans')), model_view),
                        failing_input={'task': o.get('task'), 'op': o['op'], 'implementation': o.get('impl', o.get('impl_spans')),
                                       'model': a}, property_fails=False)
+        if k == 'mext':
+            parts = a.split('|')
+            if len(parts) == 3:
+                d = hyp.setdefault('mext.ChainNoCrossing', {'true': 0, 'false': 0, 'n': 0})
+                d['true' if parts[1] == '1' else 'false'] += 1
         if k == 'addto':
             parts = a.split('|')
             if len(parts) == 4:
@@ -708,6 +724,12 @@ def compare(o, a):
         return exp == [tuple(x) for x in o['impl_spans']], exp
     if k == 'addto':
         return a.split('|')[0] == o['impl'], a
+    if k == 'mext':
+        return a.split('|')[0] == o['impl'], a
+    if k == 'mparse':
+        parts = a.split('|')
+        view = '%s|%s' % (parts[0], parts[2]) if len(parts) == 3 else a
+        return view == o['impl'], a
     if k == 'grp':
         # compare (start, length, stripped text)
         ms = []
